@@ -193,6 +193,23 @@ func TestVerifC08(t *testing.T) {
 			if !r1.Equals(r2) || !from1.Equals(from2) || (e1 == nil) != (e2 == nil) {
 				det = "diff"
 			}
+			// determinism, repeated: map-iteration order differs from call to call, so equal-ranked candidates that reach
+			// the result in map order show up only now and then (more often the more candidates tie)
+			reps := 2
+			if len(topo.kind) > 1 {
+				reps = 16
+			}
+			for k := 0; k < reps && det == "same"; k++ {
+				fromK := c.from.Clone()
+				alloc := ca
+				if k%2 == 1 {
+					alloc = ca2
+				}
+				rK, eK := alloc.AllocateCpus(&fromK, c.cnt, WithPriority(c.prefer), WithAllocFlags(c.flags))
+				if !r1.Equals(rK) || !from1.Equals(fromK) || (e1 == nil) != (eK == nil) {
+					det = "diff"
+				}
+			}
 			fmt.Fprintf(w, "A %s %d %d %d => %s %s %s\n", vSet(c.from), c.cnt, int(c.prefer), int(c.flags), res, vSet(from1), det)
 			if c.cnt <= c.from.Size() {
 				from3 := c.from.Clone()
